@@ -391,7 +391,7 @@ class C10(Check):
             os.makedirs(w.abs(d), exist_ok=True)
         look = [{"p": uni.roots[x]["dir"]} for x in g["look"] if x < len(uni.roots)]
         n = 0
-        junk = object()
+        junk = "junk-object"
         for step in g["order"].split(","):
             if step == "rn":
                 res = w.run_read({"op": "rn", "root": {"p": g["dirs"][n % 2]}, "lookups": look, "key": None, "cwd": ""})
